@@ -277,6 +277,7 @@ fn two(b_drop: bool, ka: usize, kb: usize) {
 two_harness! { #[kani::unwind(7)] fn g_two_stop() { two(false, 2, 1); } }
 two_harness! { #[kani::unwind(7)] fn g_two_drop() { two(true, 1, 2); } }
 two_harness! { #[kani::unwind(7)] fn g_two_stop_idle_b() { two(false, 2, 0); } }
+two_harness! { #[kani::unwind(7)] fn g_two_drop_2_2() { two(true, 2, 2); } }
 
 two_harness! { #[kani::unwind(7)] fn twin_g_two() {
     rt::reset_all();
